@@ -24,7 +24,7 @@ func init() {
 		Rule: "families of 2..4 constructed xxhash64-colliding 64-byte keys (equality of Sum64 asserted) plus plain keys; seeded sequences of Write/Read/Delete/Load/Store, Failover/FailoverOf.Get, AddLabels+InvalidateByLabels and Dump/Restore over them on all backends, " +
 			"judged by the collision-slot model (a key returns its own last value, or at most a miss if a partner was written since; never a partner's value, stale item or deletion); after every call that takes a key the passed buffer is overwritten " +
 			"(with a partner key / noise) and stored keys, label associations and the key of gated background builds are re-checked with fresh buffers; distinct_nontrivial = distinct (backend, family size, op-kind trace) sequences in which a partner write preceded a read/delete of the other key",
-		Required:    []string{"sequences", "collision.partner_written_then_read", "collision.partner_written_then_deleted", "collision.miss_observed", "buffer.overwritten_after_call", "bg.gated_builds", "bg.failing_builds", "bg.partner_gets_during_build", "collision.concurrent_rounds", "labels.invalidations", "failover.gets", "dumprestore.checked", "kind.ShardedMap", "kind.SyncMap", "kind.ShardedMapOf", "writes.value_equal_to_another_keys_value"},
+		Required:    []string{"sequences", "collision.partner_written_then_read", "collision.partner_written_then_deleted", "collision.miss_observed", "buffer.overwritten_after_call", "bg.gated_builds", "bg.failing_builds", "bg.partner_gets_during_build", "collision.concurrent_rounds", "labels.invalidations", "failover.gets", "dumprestore.checked", "kind.ShardedMap", "kind.SyncMap", "kind.ShardedMapOf", "writes.value_equal_to_another_keys_value", "dumprestore.over_existing_content"},
 		Assumptions: []string{"collision keys are constructed for xxhash64 with seed 0 (cespare/xxhash v2) and verified at run time"},
 		Timeout:     func(string) time.Duration { return 45 * time.Minute },
 	})
@@ -322,6 +322,39 @@ func c09Sequence(b *Batch, idx int) {
 				}
 				return nil
 			})
+		}
+	}
+	// Restore over existing content: the receiver already holds entries under the colliding partners of the dumped keys
+	var buf0 bytes.Buffer
+	if _, err := be.Dump(&buf0); err == nil {
+		warm := newBackend(kind, cache.Config{EvictionStrategy: c16Strategies[rng.Intn(3)]})
+		for j := range keys {
+			if !model[j].present || rng.Intn(2) == 0 {
+				_ = warm.Write(bg, keys[j].bytes, fmt.Sprintf("pre/%d", j))
+				_, _ = warm.Read(bg, keys[j].bytes)
+			}
+		}
+		dumped := map[string]string{}
+		be.Walk(func(k []byte, v interface{}, _ timeT) error { dumped[string(k)] = fmt.Sprint(v); return nil })
+		warm.Restore(&buf0)
+		b.R.Count("dumprestore.over_existing_content", 1)
+		warm.Walk(func(k []byte, v interface{}, _ timeT) error {
+			want, ok := dumped[string(k)]
+			got := fmt.Sprint(v)
+			if ok && got != want {
+				fail("restore-over-existing-mixed", fmt.Sprintf("after Restore over existing content key %s holds %s, the dump had %s for it", keyLabel(k), got, want))
+			}
+			if !ok && !strings.HasPrefix(got, "pre/") {
+				fail("restore-over-existing-mixed", fmt.Sprintf("after Restore over existing content key %s (not in the dump) holds %s", keyLabel(k), got))
+			}
+			return nil
+		})
+		for k, want := range dumped {
+			v, err := warm.Read(bg, []byte(k))
+			sv, _, _ := warm.Expired(err)
+			if fmt.Sprint(v) != want && fmt.Sprint(sv) != want && !(collides && errClass(err) == "notfound") {
+				fail("restore-over-existing-lost", fmt.Sprintf("dumped key %s reads (%v,%v) in the warm receiver, dump had %s", keyLabel([]byte(k)), v, err, want))
+			}
 		}
 	}
 	// Dump/Restore of the final content keeps keys and values apart
